@@ -142,9 +142,9 @@ def run(ctx):
                    lines=[F.flag_walk(r, pc, pt, adversarial=True) for _ in range(ctx.budget(20000, 300000))],
                    classify=F.classify_walk, canon=F.canon_panic)
     hook_search(ctx, shim, ctx.rng("hook"), ctx.budget(20000, 300000), pc, pt)
-    shape_hygiene(ctx, shim, ctx.rng("hygiene"), ctx.budget(24, 400), pc, pt)
-    concat_search(ctx, shim, ctx.rng("concat-ot"), ctx.budget(20, 300), pc, pt, False, "concat-redistribution-ot")
-    concat_search(ctx, shim, ctx.rng("concat-aat"), ctx.budget(30, 600), pc, pt, True, "concat-redistribution-aat")
+    shape_hygiene(ctx, shim, ctx.rng("hygiene"), ctx.budget(48, 400), pc, pt)
+    concat_search(ctx, shim, ctx.rng("concat-ot"), ctx.budget(60, 1000), pc, pt, False, "concat-redistribution-ot")
+    concat_search(ctx, shim, ctx.rng("concat-aat"), ctx.budget(80, 1500), pc, pt, True, "concat-redistribution-aat")
 
 
 def replay(ctx, rp):
